@@ -16,6 +16,7 @@ mod props_conc;
 mod props_eval;
 mod props_seq;
 mod props_unit;
+mod props_unit2;
 mod runner;
 
 use std::path::PathBuf;
@@ -120,6 +121,14 @@ fn dispatch(prop: &str, ctx: &Ctx) -> Finish {
         props_eval::run_c19(ctx)
     } else if prop == "C20" {
         props_eval::run_c20(ctx, replay_bin(), tmp_dir())
+    } else if prop == "C06" {
+        props_unit2::run_c06(ctx)
+    } else if prop == "C08" {
+        props_unit2::run_c08(ctx)
+    } else if prop == "C12" {
+        props_unit2::run_c12(ctx)
+    } else if prop == "C17" {
+        props_unit2::run_c17(ctx)
     } else if prop == "C23" {
         props_unit::run_c23(ctx)
     } else if prop == "C16" {
@@ -146,6 +155,10 @@ fn replay_doc(prop: &str, doc: &Value) -> Option<String> {
         }
         "classcfg" => props_eval::replay_class(&serde_json::from_value(doc["case"].clone()).unwrap()),
         "trace" => props_eval::replay_trace(&serde_json::from_value(doc["case"].clone()).unwrap(), replay_bin(), tmp_dir()),
+        "init" => props_unit2::replay_init(&serde_json::from_value(doc["case"].clone()).unwrap()),
+        "invalid" => props_unit2::replay_invalid(&serde_json::from_value(doc["case"].clone()).unwrap()),
+        "tree" => props_unit2::replay_tree(&serde_json::from_value(doc["case"].clone()).unwrap()),
+        "wrap" => props_unit2::replay_wrap(&serde_json::from_value(doc["case"].clone()).unwrap()),
         "row" => props_unit::replay_row(&serde_json::from_value(doc["case"].clone()).unwrap()),
         "sortedbuf" => props_unit::replay_buf(&serde_json::from_value(doc["case"].clone()).unwrap()),
         "search" => props_unit::replay_search(&serde_json::from_value(doc["case"].clone()).unwrap()),
